@@ -69,7 +69,40 @@ func (e *Env) Quiesce() {
 	if w == nil {
 		return
 	}
+	s.mu.Lock()
+	w.within = 0
+	s.mu.Unlock()
 	s.park(w, "quiesce", wQuiesce, 0)
+}
+
+// QuiesceWithin parks the caller until no worker can run and nothing (no timer) makes
+// one runnable for a quiet period of d simulated time. For systems with a slow periodic
+// timer that never lets them quiesce completely.
+func (e *Env) QuiesceWithin(d time.Duration) {
+	s := e.s
+	w := s.self()
+	if w == nil {
+		return
+	}
+	s.mu.Lock()
+	w.within = d
+	s.mu.Unlock()
+	s.park(w, "quiesce", wQuiesce, 0)
+}
+
+// Idle parks the caller until at least d of simulated time has passed and, at that
+// moment, no other worker can run (all are blocked). Unlike Quiesce it does not require
+// that no timer is pending, so it also works with periodic timers in the system.
+func (e *Env) Idle(d time.Duration) {
+	s := e.s
+	w := s.self()
+	if w == nil {
+		return
+	}
+	s.mu.Lock()
+	w.wakeAt = time.Now().Add(d)
+	s.mu.Unlock()
+	s.park(w, "idle", wIdle, 0)
 }
 
 // Sleep lets d of simulated time pass for the caller.
